@@ -14,9 +14,9 @@ import (
 type TokKind int
 
 const (
-	TkOther TokKind = iota
-	TkKeyword        // letter case may vary
-	TkFunc           // unquoted function name: letter case may vary
+	TkOther   TokKind = iota
+	TkKeyword         // letter case may vary
+	TkFunc            // unquoted function name: letter case may vary
 )
 
 type Tok struct {
@@ -91,6 +91,7 @@ type gen struct {
 	plantProb    int // 0..100: chance to plant at a given term position
 	planted      int
 	maxPlant     int
+	token        string // if set, every INSERT/UPDATE/DELETE carries it as a string literal
 }
 
 func (g *gen) kw(words ...string) {
@@ -459,6 +460,10 @@ func (g *gen) relation() {
 func (g *gen) whereClause() {
 	g.st.Clauses++
 	g.kw("WHERE")
+	if g.token != "" {
+		g.p("tokc", "=", "'"+g.token+"'")
+		g.kw("AND")
+	}
 	n := 1 + g.pick("nrel", 3)
 	for i := 0; i < n; i++ {
 		if i > 0 {
@@ -515,7 +520,11 @@ func (g *gen) insert() {
 	g.tableName()
 	if g.chance("json", 12) {
 		g.kw("JSON")
-		g.p(strLits[g.pick("js", len(strLits))])
+		if g.token != "" {
+			g.p(`'{"tokc": "` + g.token + `"}'`)
+		} else {
+			g.p(strLits[g.pick("js", len(strLits))])
+		}
 		if g.chance("jd", 40) {
 			g.kw("DEFAULT")
 			if g.chance("jdn", 50) {
@@ -527,6 +536,9 @@ func (g *gen) insert() {
 	} else {
 		n := 1 + g.pick("ncols", 4)
 		g.p("(")
+		if g.token != "" {
+			g.p("tokc", ",")
+		}
 		for i := 0; i < n; i++ {
 			if i > 0 {
 				g.p(",")
@@ -536,6 +548,9 @@ func (g *gen) insert() {
 		g.p(")")
 		g.kw("VALUES")
 		g.p("(")
+		if g.token != "" {
+			g.p("'"+g.token+"'", ",")
+		}
 		for i := 0; i < n; i++ {
 			if i > 0 {
 				g.p(",")
@@ -786,11 +801,12 @@ type Opts struct {
 	MaxPlant int    // upper bound on planted constructs
 	Neutral  bool   // allow constructs the property is silent about (function calls, casts, set removal)
 	Kind     string // "" = any DML kind
+	Token    string // embed this token as a string literal in every child statement
 }
 
 // Gen derives one DML statement.
 func Gen(t *rapid.T, o Opts) *Stmt {
-	g := &gen{t: t, st: &Stmt{}, plantProb: o.PlantPct, maxPlant: o.MaxPlant, allowNeutral: o.Neutral}
+	g := &gen{t: t, st: &Stmt{}, plantProb: o.PlantPct, maxPlant: o.MaxPlant, allowNeutral: o.Neutral, token: o.Token}
 	kind := o.Kind
 	if kind == "" {
 		kind = []string{"insert", "update", "delete", "batch", "insert", "update"}[g.pick("kind", 6)]
